@@ -1,6 +1,65 @@
-//! C39: not implemented yet.
+//! C39: ingredients carry their source manifests and validation.
+//! case: {spec: builder-spec with "ingredients": [{json, src}]}
+//! out:  {r:"ok", standalone: [ per ingredient {r:"ok", report, results, active, jumbf:hex} | {r:"none"|"err", kind} ],
+//!        parent: {r:"ok", report, view, jumbf:hex} | {r:"sign_err"|"read_err", kind, detail}}
+use std::io::Cursor;
+
 use serde_json::{json, Value};
 
-pub fn run(_case: &Value) -> Value {
-    json!({"r": "unimplemented"})
+use crate::{e2e, util::*};
+
+fn standalone(spec: &Value, ing: &Value) -> Value {
+    let (fmt, bytes) = match e2e::materialize_cached(&ing["src"]) {
+        Ok(x) => x,
+        Err(e) => return json!({"r": "bad_source", "detail": e}),
+    };
+    let ctx = match spec.get("settings") {
+        Some(s) if s.is_object() => e2e::context(Some(&s.to_string())),
+        _ => e2e::context(None),
+    };
+    let jumbf = c2pa::jumbf_io::load_jumbf_from_memory(&fmt, &bytes).ok();
+    match c2pa::Reader::from_context(ctx).with_stream(&fmt, Cursor::new(bytes.clone())) {
+        Ok(reader) => {
+            let mut results = serde_json::to_value(reader.validation_results()).unwrap_or(Value::Null);
+            strip_time(&mut results);
+            json!({"r": "ok", "report": e2e::report(&reader), "results": results, "active": reader.active_label(),
+                   "labels": reader.manifests().keys().collect::<Vec<_>>(),
+                   "jumbf": jumbf.map(|j| hexe(&j)), "len": bytes.len()})
+        }
+        Err(e) => json!({"r": if jumbf.is_none() { "none" } else { "err" }, "kind": err_class(&e),
+                         "detail": format!("{e}").chars().take(200).collect::<String>(), "jumbf": jumbf.map(|j| hexe(&j)), "len": bytes.len()}),
+    }
+}
+
+fn strip_time(v: &mut Value) {
+    match v {
+        Value::Object(m) => {
+            m.remove("validation_time");
+            m.remove("validationTime");
+            for (_, x) in m.iter_mut() {
+                strip_time(x);
+            }
+        }
+        Value::Array(a) => a.iter_mut().for_each(strip_time),
+        _ => {}
+    }
+}
+
+pub fn run(case: &Value) -> Value {
+    let spec = &case["spec"];
+    e2e::clear_cache();
+    let mut alone = vec![];
+    if let Some(ings) = spec["ingredients"].as_array() {
+        for ing in ings {
+            alone.push(standalone(spec, ing));
+        }
+    }
+    let parent = match e2e::sign_spec(spec) {
+        Ok(s) => match e2e::read_signed(spec, &s) {
+            Ok(reader) => json!({"r": "ok", "report": e2e::report(&reader), "view": e2e::full_view(&reader), "jumbf": hexe(&s.manifest)}),
+            Err(e) => json!({"r": "read_err", "kind": err_class(&e), "detail": format!("{e}").chars().take(300).collect::<String>()}),
+        },
+        Err(e) => json!({"r": "sign_err", "kind": err_class(&e), "detail": format!("{e}").chars().take(300).collect::<String>()}),
+    };
+    json!({"r": "ok", "standalone": alone, "parent": parent})
 }
